@@ -5,9 +5,11 @@ import (
 	"fmt"
 	"math"
 	"net/url"
+	"runtime"
 	"sort"
 	"strings"
 	"sync"
+	"sync/atomic"
 	"time"
 
 	"go.uber.org/zap"
@@ -171,9 +173,16 @@ func c11meta(class string, ops []c11op, recs []c11rec) map[string]string {
 func c11emitSeq(c *Ctx, cfg c11cfg, ops []c11op, class string) {
 	s := newC11sut(cfg)
 	var recs []c11rec
-	for i := range ops {
-		s.seq(&ops[i], &recs)
-	}
+	func() {
+		defer func() {
+			if p := recover(); p != nil {
+				s.bad = append(s.bad, fmt.Sprintf("panic escaped from the sampler: %v", p))
+			}
+		}()
+		for i := range ops {
+			s.seq(&ops[i], &recs)
+		}
+	}()
 	xs := make([]SX, len(recs))
 	for i, r := range recs {
 		xs[i] = r.sx()
@@ -202,12 +211,21 @@ func c11emitConc(c *Ctx, cfg c11cfg, pre, batch []c11op, G int, class string) {
 	s.hooks = map[int64][]int{}
 	s.mu.Unlock()
 	var wg sync.WaitGroup
-	start := make(chan struct{})
+	var ready, start atomic.Int32
 	for g := 0; g < G; g++ {
 		wg.Add(1)
 		go func(g int) {
 			defer wg.Done()
-			<-start
+			defer func() {
+				if p := recover(); p != nil {
+					s.mu.Lock()
+					s.bad = append(s.bad, fmt.Sprintf("panic escaped from the sampler: %v", p))
+					s.mu.Unlock()
+				}
+			}()
+			ready.Add(1)
+			for start.Load() == 0 { // spin: all goroutines enter the sampler together
+			}
 			for i := g; i < len(batch); i += G {
 				o := batch[i]
 				ent := zapcore.Entry{Level: zapcore.Level(o.lvl), Message: o.msg, Time: time.Unix(0, o.tn)}
@@ -217,7 +235,10 @@ func c11emitConc(c *Ctx, cfg c11cfg, pre, batch []c11op, G int, class string) {
 			}
 		}(g)
 	}
-	close(start)
+	for int(ready.Load()) < G {
+		runtime.Gosched()
+	}
+	start.Store(1)
 	wg.Wait()
 	fw := map[int64]int{}
 	for _, le := range s.logs.All()[before:] {
@@ -307,6 +328,11 @@ func c11emitConfig(c *Ctx, n, m int, minLvl int8, ops []c11op, class string) {
 	}
 	loggers := []*zap.Logger{lg}
 	var recs []c11rec
+	defer func() {
+		if p := recover(); p != nil {
+			c.Viol(fmt.Sprintf("panic escaped from the config-built sampling logger: %v", p), L(I(0), I(n), I(m), Z(int64(time.Second)), c11opssx(ops)))
+		}
+	}()
 	for i := range ops {
 		o := &ops[i]
 		switch o.kind {
@@ -364,11 +390,14 @@ func c11fnv(s string) uint32 {
 
 // brute-forced groups of messages whose fnv32a agree mod 4096 (used for generation only:
 // the model computes the buckets itself)
-func c11collisions(want int) [][]string {
+func c11collisions(want int, short bool) [][]string {
 	by := map[uint32][]string{}
 	var out [][]string
 	for i := 0; len(out) < want && i < 200000; i++ {
 		m := fmt.Sprintf("msg-%d", i)
+		if short {
+			m = string([]byte{byte('A' + i%50), byte('!' + i/50)})
+		}
 		b := c11fnv(m) % 4096
 		by[b] = append(by[b], m)
 		if len(by[b]) == 3 {
@@ -604,6 +633,9 @@ func c11randomConc(c *Ctx, r *RNG, coll [][]string, maxBatch int) {
 	}
 	pre = append(pre, lg(3, lvl, g[0], T)) // another family: its own budget
 	nb := r.Range(2, maxBatch)
+	if r.Chance(25) {
+		nb = r.Range(2, 40)
+	}
 	batch := make([]c11op, nb)
 	perm := make([]int, nb)
 	for i := range perm {
@@ -616,16 +648,17 @@ func c11randomConc(c *Ctx, r *RNG, coll [][]string, maxBatch int) {
 	if r.Chance(30) { // up to the last nanosecond of the window
 		batch[0].tn = T + hour - 1
 	}
-	c11emitConc(c, cfg, pre, batch, r.Range(2, 16), "conc")
+	c11emitConc(c, cfg, pre, batch, r.Range(2, 12), "conc")
 }
 
 func c11(c *Ctx) {
 	r := NewRNG(c.Seed)
-	coll := c11collisions(8)
+	coll := c11collisions(8, false)
+	scoll := c11collisions(8, true)
 	c11directed(c, coll)
-	K, N, NC, NCONC, maxOps, maxBatch := 4, 2200, 150, 120, 120, 600
+	K, N, NC, NCONC, maxOps, maxBatch := 4, 3000, 200, 100, 100, 4000
 	if c.Thorough {
-		K, N, NC, NCONC, maxOps, maxBatch = 6, 60000, 3000, 3000, 400, 4000
+		K, N, NC, NCONC, maxOps, maxBatch = 6, 60000, 3000, 1500, 400, 20000
 	}
 	c11exhaustive(c, K)
 	for i := 0; i < N; i++ {
@@ -635,7 +668,7 @@ func c11(c *Ctx) {
 		c11randomConfig(c, r, coll)
 	}
 	for i := 0; i < NCONC; i++ {
-		c11randomConc(c, r, coll, maxBatch)
+		c11randomConc(c, r, scoll, maxBatch)
 	}
 }
 
